@@ -127,6 +127,25 @@ var numStyles = []numStyle{
 		}
 		return t.Num().String() + "e-1", true
 	}),
+	// zero has further spellings: a sign, and a float64 negative zero
+	jnStyle("json.Number.-0", func(r *big.Rat) (string, bool) {
+		if r.Sign() != 0 {
+			return "", false
+		}
+		return "-0", true
+	}),
+	jnStyle("json.Number.-0.0e1", func(r *big.Rat) (string, bool) {
+		if r.Sign() != 0 {
+			return "", false
+		}
+		return "-0.0e1", true
+	}),
+	{"float64(-0)", func(r *big.Rat) (reflect.Value, bool) {
+		if r.Sign() != 0 {
+			return reflect.Value{}, false
+		}
+		return reflect.ValueOf(math.Copysign(0, -1)), true
+	}},
 	intStyle("MyInt", reflect.TypeOf(MyInt(0)), math.MinInt64, math.MaxInt64),
 	{"MyFloat", func(r *big.Rat) (reflect.Value, bool) {
 		f, exact := r.Float64()
